@@ -670,7 +670,11 @@ def _r2(ctx):
 
 
 def _r3(ctx):
-    for key in ("mdcrd", "xyz", "lammpstrj", "arc"):
+    # by value: read / seek / tell of the text formats evaluated on a model file (the machinery of C02-R8); after every read tell() is the number of
+    # frames consumed.  ARC offers no tell(): its counter is observable only through the times of read_as_traj, decided in C02-R8.
+    from .c02 import _r8_text_readers
+    _r8_text_readers(ctx, rule="C18-R3", cursor_only=True)
+    for key in ():      # the statement-counting form of this rule (one `+= 1` in _read, after every raise) is replaced by the evaluation above
         rel, cls = F.rel_cls(key)
         fn = F.method(ctx, key, "_read")
         q = cls + "._read"
